@@ -143,7 +143,13 @@ func (t *traversal[S, T]) visit(ctx context.Context, eg *errgroup.Group, node *v
 		)
 		verifYield("worker.start", node.key)
 		if !t.skip(node) {
-			result, err = t.visitor(ctx, node.key, *node.service)
+			// once the traversal is cancelled (a visitor failed, or the caller gave up) no new visit starts:
+			// a slot freed by the coordinator leaving must not let one more visitor run than maxConcurrency
+			if ctxErr := ctx.Err(); ctxErr != nil {
+				err = ctxErr
+			} else {
+				result, err = t.visitor(ctx, node.key, *node.service)
+			}
 		}
 		verifYield("worker.done", node.key)
 		t.done(node, result)
